@@ -8,6 +8,7 @@ from ALL models by ref_brute), on three routes for the same program:
  (iii) native deduction replies (sugar_extended / csugar / enigma_csp / cspuz_core
        classes + stand-in in deduction mode)
 and the three reported tables must be identical."""
+import contextlib
 import json
 import random
 
@@ -64,8 +65,9 @@ def run_route(ctx, st, case, route, backend):
     p = case["prog"]
     s = cspuz.Solver()
     vars_ = progs.declare(s, p["decls"])
-    for c in p["constraints"]:
-        s.ensure(progs.build(c, vars_))
+    with (progs.shared() if len(repr(p)) % 2 else contextlib.nullcontext()):
+        for c in p["constraints"]:
+            s.ensure(progs.build(c, vars_))
     if case["keys"]:
         s.add_answer_key([vars_[i] for i in case["keys"]])
     ctx.current_case = {"case": case, "route": route}
